@@ -31,6 +31,10 @@ type apiOp struct {
 	Key  int    `json:"key"`           // index into apiKeys
 	Val  int    `json:"val"`           // index into value kinds
 	Nil  bool   `json:"nil,omitempty"` // bytes flavour passes nil instead of empty (key and/or value position that is empty)
+	// reopen only: lifecycle misuse around the clean restart. 1: Put/Delete/Get on the closed handles; 2: the same on the
+	// new, not yet opened handles (and Close of those); 4: a second Open of the open handles; 8: a second Close.
+	// None of these calls has to fail, but one that returns an error must have no effect, and the flavours must agree.
+	Misuse int `json:"misuse,omitempty"`
 }
 
 type apiCase struct {
@@ -84,7 +88,12 @@ func apiGen(r *rand.Rand, thorough bool) apiCase {
 		case x < 90:
 			c.Ops = append(c.Ops, apiOp{Kind: "get", Key: key, Nil: r.Intn(2) == 0})
 		default:
-			c.Ops = append(c.Ops, apiOp{Kind: "reopen"})
+			op := apiOp{Kind: "reopen"}
+			if r.Intn(2) == 0 {
+				op.Misuse = 1 + r.Intn(15)
+				op.Key = 1 + r.Intn(len(apiKeys)-1)
+			}
+			c.Ops = append(c.Ops, op)
 		}
 	}
 	return c
@@ -111,12 +120,16 @@ func errClass(err error) string {
 
 var apiDirectSync bool
 
-func apiOpen(dir string, mem uint64) (*simpledb.DB, error) {
+func apiNew(dir string, mem uint64) (*simpledb.DB, error) {
 	opts := []simpledb.ExtraOption{simpledb.MemstoreSizeBytes(mem), simpledb.CompactionRunInterval(time.Hour)}
 	if apiDirectSync {
 		opts = append(opts, simpledb.EnableDirectIOWAL())
 	}
-	db, err := simpledb.NewSimpleDB(dir, opts...)
+	return simpledb.NewSimpleDB(dir, opts...)
+}
+
+func apiOpen(dir string, mem uint64) (*simpledb.DB, error) {
+	db, err := apiNew(dir, mem)
 	if err != nil {
 		return nil, err
 	}
@@ -373,10 +386,102 @@ func runAPICase(c *Ctx, ac apiCase, tape *simrt.Tape, count bool) (vs []apiViola
 					return
 				}
 			case "reopen":
+				// misuse calls: valid arguments on a handle in the wrong state. A call that returns an error must have
+				// no effect (checked by the sweeps and crash images that follow); one that is accepted counts.
+				misuse := func(hS, hB *simpledb.DB, state string) bool {
+					v := apiValue(1, i)
+					desc := fmt.Sprintf("op %d on a %s handle: ", i, state)
+					eS, eB := hS.Put(k, v), hB.PutBytes([]byte(k), []byte(v))
+					evals++
+					if (eS == nil) != (eB == nil) {
+						add("flavours-disagree|put-"+state, fmt.Sprintf("%sPut returned %v, PutBytes returned %v", desc, eS, eB))
+						return false
+					}
+					if eB == nil {
+						model[k] = v
+					} else {
+						snaps = append(snaps, snap{w.Seq(), cloneMap(model), desc + "PutBytes"})
+					}
+					eS, eB = hS.Delete(apiKeys[1]), hB.DeleteBytes([]byte(apiKeys[1]))
+					evals++
+					if (eS == nil) != (eB == nil) {
+						add("flavours-disagree|delete-"+state, fmt.Sprintf("%sDelete returned %v, DeleteBytes returned %v", desc, eS, eB))
+						return false
+					}
+					if eB == nil {
+						delete(model, apiKeys[1])
+					} else {
+						snaps = append(snaps, snap{w.Seq(), cloneMap(model), desc + "DeleteBytes"})
+					}
+					vS, eS := hS.Get(k)
+					vB, eB := hB.GetBytes([]byte(k))
+					evals++
+					if errClass(eS) != errClass(eB) || !bytes.Equal([]byte(vS), vB) {
+						add("flavours-disagree|get-"+state, fmt.Sprintf("%sGet = (%q, %s), GetBytes = (%q, %s)", desc, head([]byte(vS)), errClass(eS), head(vB), errClass(eB)))
+						return false
+					}
+					return true
+				}
+				if op.Misuse&4 != 0 {
+					eS, eB := dbS.Open(), dbB.Open()
+					evals++
+					c.Count("probe:second-open-of-an-open-database", 1)
+					if (eS == nil) != (eB == nil) {
+						add("flavours-disagree|second-open", fmt.Sprintf("op %d: second Open returned %v and %v on twin databases", i, eS, eB))
+						closeBoth()
+						return
+					}
+					if eB != nil {
+						snaps = append(snaps, snap{w.Seq(), cloneMap(model), fmt.Sprintf("op %d: second Open", i)})
+					}
+					if !sweep("after-second-open") {
+						closeBoth()
+						return
+					}
+				}
 				e1, e2 := dbS.Close(), dbB.Close()
 				if e1 != nil || e2 != nil {
 					add("close-error|"+normErr(errors.Join(e1, e2)), fmt.Sprintf("op %d: Close failed: %v %v", i, e1, e2))
 					return
+				}
+				if op.Misuse&8 != 0 {
+					e1, e2 := dbS.Close(), dbB.Close()
+					evals++
+					c.Count("probe:second-close", 1)
+					if (e1 == nil) != (e2 == nil) {
+						add("flavours-disagree|second-close", fmt.Sprintf("op %d: second Close returned %v and %v on twin databases", i, e1, e2))
+						return
+					}
+					if e2 != nil {
+						snaps = append(snaps, snap{w.Seq(), cloneMap(model), fmt.Sprintf("op %d: second Close", i)})
+					}
+				}
+				if op.Misuse&1 != 0 {
+					c.Count("probe:calls-on-a-closed-database", 1)
+					if !misuse(dbS, dbB, "closed") {
+						return
+					}
+				}
+				if op.Misuse&2 != 0 {
+					c.Count("probe:calls-on-a-not-yet-opened-database", 1)
+					nS, errS := apiNew(dirS, ac.Memstore)
+					nB, errB := apiNew(dirB, ac.Memstore)
+					if errS != nil || errB != nil {
+						add("reopen-error|"+normErr(errors.Join(errS, errB)), fmt.Sprintf("op %d: NewSimpleDB after a clean Close failed: %v %v", i, errS, errB))
+						return
+					}
+					if !misuse(nS, nB, "not-yet-opened") {
+						return
+					}
+					e1, e2 := nS.Close(), nB.Close()
+					evals++
+					if (e1 == nil) != (e2 == nil) {
+						add("flavours-disagree|close-not-yet-opened", fmt.Sprintf("op %d: Close of a not yet opened database returned %v and %v on twin databases", i, e1, e2))
+						return
+					}
+					if e2 != nil {
+						snaps = append(snaps, snap{w.Seq(), cloneMap(model), fmt.Sprintf("op %d: Close of a not yet opened database", i)})
+					}
 				}
 				dbS, err = apiOpen(dirS, ac.Memstore)
 				if err == nil {
